@@ -167,6 +167,28 @@ def ref_segwit_address(hrp, version, prog, const):
 
 
 BECH32_CONST, BECH32M_CONST = 1, 0x2BC830A3
+DIGIT_VALUES = [i for i, ch in enumerate(CHARSET) if ch.isdigit()]
+
+
+def uncased_segwit(rng, hrp, nbytes, tries=40000):
+    """(version, program, address) whose whole data part - version character, program groups and checksum - consists
+    of digits only: the degenerate class for any case test in a decoder (the hrp keeps its letters)"""
+    n = -(-8 * nbytes // 5)
+    pad = 5 * n - 8 * nbytes
+    last = [g for g in DIGIT_VALUES if g & ((1 << pad) - 1) == 0]
+    if not last:
+        return None
+    for _ in range(tries):
+        v = rng.choice([g for g in DIGIT_VALUES if 1 <= g <= 16])
+        groups = [rng.choice(DIGIT_VALUES) for _ in range(n - 1)] + [rng.choice(last)]
+        bits = 0
+        for g in groups:
+            bits = (bits << 5) | g
+        prog = (bits >> pad).to_bytes(nbytes, "big")
+        addr = ref_segwit_address(hrp, v, prog, BECH32M_CONST)
+        if all(ch.isdigit() for ch in addr[len(hrp) + 1:]):
+            return v, prog, addr
+    return None
 
 
 def h256(b):
@@ -293,6 +315,8 @@ def p_b32_rt(c):
     got = B32.decode_bech32(addr)
     hrp = HRP[net]
     ok = got == [NET_BACK[net], v, prog] and addr.startswith(hrp + "1") and addr == addr.lower()
+    if "uncased_address" in c:
+        ok = ok and addr == c["uncased_address"] and not any(ch.isalpha() for ch in addr[len(hrp) + 1:])
     pm = ref_polymod(ref_hrp_expand(hrp) + [CHARSET.index(ch) for ch in addr[len(hrp) + 1:]])
     const = 1 if v == 0 else 0x2BC830A3
     ok = ok and pm == const
@@ -684,6 +708,18 @@ def run(ctx):
                     lines.append(("a2s_grid", f"a2s {xs(a)}"))
                     lines.append(("to_addr_grid", f"to_addr {xs(a)}"))
                     lines.append(("b32_dec_grid", f"b32_dec {xs(a)}"))
+
+    # ---- degenerate character class: a data part without any cased character
+    for net, nb in (("mainnet", 20), ("regtest", 33), ("testnet", rng.choice([5, 10, 13, 21, 40]))):
+        r = uncased_segwit(rng, HRP[net], nb)
+        if r is None:
+            continue
+        v, prog, a = r
+        preds.append(("bech32_roundtrip", {"v": v, "prog": xb(prog), "net": net, "uncased_address": a}))
+        lines.append(("b32_enc_uncased", f"b32_enc {xb(bytes([0x50 + v, nb]) + prog)} {xs(net)}"))
+        for op in ("b32_dec", "a2s", "to_addr"):
+            lines.append((op + "_uncased", f"{op} {xs(a)}"))
+        lines.append(("b32_dec_uncased", f"b32_dec {xs(a.upper())}"))
 
     # ---- object-reuse histories (the codecs are stateless; the objects must not remember a network or a flag)
     for kind in range(5):
